@@ -121,6 +121,14 @@ def run_chunks(exe, cases, chunk=2000, jobs=8):
         parts = list(ex.map(lambda c: run_exe(exe, c), chunks))
     return [o for p in parts for o in p]
 
+def run_isolated(exe, cases, jobs=12):
+    """every case in its own fresh process (no state can leak between cases)"""
+    from concurrent.futures import ThreadPoolExecutor
+    if not cases:
+        return []
+    with ThreadPoolExecutor(max_workers=jobs) as ex:
+        return [r[0] for r in ex.map(lambda c: run_exe(exe, [c]), cases)]
+
 def first_diff(a, b):
     for i, (x, y) in enumerate(zip(a, b)):
         if x != y:
